@@ -107,14 +107,14 @@ def h_overwrite(env, ext=".mrc"):
     env.check("overwrite_true_replaces", env.eq(get(i[0], i[1], i[2]), at(y, i)))
 
 
-def h_convert(env, direction="em2mrc", invert=False, explicit_name=False, dtype="float32", overwrite_case=False):
+def h_convert(env, direction="em2mrc", invert=False, explicit_name=False, dtype="float32", overwrite_case=False, base="vol"):
     cm = env.module("cryomap")
     n, i, x = _array(env, dtype)
     src_ext, dst_ext = (".em", ".mrc") if direction == "em2mrc" else (".mrc", ".em")
-    src = env.path("vol" + src_ext)
+    src = env.path(base + src_ext)
     cm.write(x, src)
     kw = {}
-    dst = env.path("vol" + dst_ext)
+    dst = env.path(base + dst_ext)          # documented default: same name, other extension
     if explicit_name:
         dst = env.path("other_name" + dst_ext)
         kw["output_name"] = dst
@@ -165,6 +165,8 @@ def jobs(tier, seed):
           ("h_overwrite", {"ext": ".mrc"}), ("h_overwrite", {"ext": ".em"}),
           ("h_convert", {"direction": "em2mrc"}), ("h_convert", {"direction": "mrc2em"}),
           ("h_convert", {"direction": "em2mrc", "invert": True, "explicit_name": True}), ("h_convert", {"direction": "mrc2em", "invert": True, "dtype": "int16"}),
+          ("h_convert", {"direction": "em2mrc", "base": "template"}), ("h_convert", {"direction": "em2mrc", "base": "tomogram", "invert": True}),
+          ("h_convert", {"direction": "mrc2em", "base": "scheme"}), ("h_convert", {"direction": "mrc2em", "base": "map.v2.rc", "dtype": "int16"}),
           ("h_convert", {"direction": "em2mrc", "overwrite_case": True}), ("h_convert", {"direction": "mrc2em", "overwrite_case": True, "explicit_name": True}),
           ("h_invert", {"dtype": "float64", "ext": ".mrc"}), ("h_invert", {"dtype": "int16", "ext": ".em"})]
     if tier == "thorough":
